@@ -159,6 +159,15 @@ class Poly:
         if self.is_monomial():
             (m, c), = self.terms.items()
             return _mono_pow(m, c, e)
+        # a constant of Q(sqrt(p)) to a negative integer power: rationalise exactly
+        if ec is not None and ec.denominator == 1 and ec < 0:
+            q = self._quadratic_surd()
+            if q is not None:
+                u, v, pr = q
+                norm = u * u - v * v * pr
+                if norm != 0:
+                    inv = Poly.const(u / norm) - Poly({((("#", pr), Poly.const(Fraction(1, 2)).key),): v / norm})
+                    return inv.pow(Poly.const(-ec))
         # a sum raised to a negative / fractional / symbolic power: split off the
         # rational content, keep the primitive part as an opaque atom
         cont, prim = self.primitive()
@@ -167,6 +176,21 @@ class Poly:
         if cont != 1:
             res = res * _mono_pow((), cont, e)
         return res
+
+    def _quadratic_surd(self):
+        """(u, v, p) when the form is the constant u + v*sqrt(p) with v != 0, else None"""
+        u = v = Fraction(0)
+        pr = None
+        for m, c in self.terms.items():
+            if m == ():
+                u = c
+            elif len(m) == 1 and m[0][0][0] == "#" and from_key(m[0][1]).as_const() == Fraction(1, 2) \
+                    and (pr is None or pr == m[0][0][1]):
+                pr = m[0][0][1]
+                v = c
+            else:
+                return None
+        return (u, v, pr) if pr is not None and v != 0 else None
 
     def primitive(self):
         """(content, primitive part): content = gcd of the coefficients with the
@@ -343,6 +367,42 @@ def opaque_part(m):
     return tuple((a, ek) for a, ek in m if a[0] in OPAQUE_KINDS)
 
 
+def _benign_function_atoms(d):
+    """Function atoms that may be treated as independent variables in an identity test:
+    a single exp / log / sin / cos atom (transcendental over the rational functions of its argument),
+    and clamp atoms max/min(name, constants...) of pairwise different names whose name does not occur
+    outside the clamp (on the unclamped region the clamp *is* the variable)."""
+    fs = [a for a in d.atoms() if a[0] == "f"]
+    out = set()
+    by_kind = {}
+    for a in fs:
+        by_kind.setdefault(a[1], []).append(a)
+    for kind in ("exp", "log", "sin", "cos"):
+        if len(by_kind.get(kind, [])) == 1 and sum(len(by_kind.get(k, [])) for k in ("exp", "log", "sin", "cos")) == 1:
+            a = by_kind[kind][0]
+            if any(x[0] == "n" for x in from_key(a[2][0]).atoms()) and not any(
+                    x[0] == "f" for x in from_key(a[2][0]).atoms()):
+                out.add(a)
+    seen = {}
+    for a in by_kind.get("max", []) + by_kind.get("min", []):
+        names = set()
+        for k in a[2]:
+            names |= {x for x in from_key(k).atoms() if x[0] == "n"}
+            if any(x[0] in OPAQUE_KINDS for x in from_key(k).atoms()):
+                names = None
+                break
+        if not names:
+            continue
+        var = [n for n in names if Poly.atom(n).key in a[2]]
+        if len(var) != 1:
+            continue
+        seen.setdefault(var[0], []).append(a)
+    for var, atoms in seen.items():
+        if len(atoms) == 1 and not occurs(d, var, skip=atoms[0]):
+            out.add(atoms[0])
+    return out
+
+
 def definitely_different(p, q, _no_frac=False):
     """Decide p == q as functions.  Returns 'equal', 'different' or 'not-comparable'.
 
@@ -375,10 +435,11 @@ def definitely_different(p, q, _no_frac=False):
             except NotComparable:
                 pass
     monos = list(d.terms.items())
+    benign = _benign_function_atoms(d)
     opaque = set()
     for m, _ in monos:
         for a, _ek in m:
-            if a[0] in OPAQUE_KINDS:
+            if a[0] in OPAQUE_KINDS and a not in benign:
                 opaque.add(a)
     # Terms whose opaque factors carry different *symbolic* exponents (s**p vs s**0, p a free name) are
     # linearly independent functions (exponential in p with a non-constant base vs not), so d == 0 iff
@@ -422,12 +483,12 @@ def definitely_different(p, q, _no_frac=False):
         if any(sh):
             if a[0] != "s" or max(sh) > 6:
                 return "not-comparable"
-            if any(x[0] in OPAQUE_KINDS for x in from_key(a[1]).atoms()):
+            if any(x[0] in OPAQUE_KINDS and x not in benign for x in from_key(a[1]).atoms()):
                 return "not-comparable"
         shifts[a] = sh
     N = Poly()
     for i, (m, c) in enumerate(monos):
-        rest = tuple(x for x in m if x[0][0] not in OPAQUE_KINDS)
+        rest = tuple(x for x in m if x[0][0] not in OPAQUE_KINDS or x[0] in benign)
         term = Poly({rest: c})
         for a, sh in shifts.items():
             if sh[i]:
